@@ -9,6 +9,7 @@ def to_replay(fl):
 
 def run(ctx):
     findings = load_findings('C06')
+    translate(ctx, ['consts'])
     lean_props(ctx)
     if not cargo_harness(ctx, ['h_atomic']): return
     n = 2000 if ctx.quick() else 60000
